@@ -43,6 +43,9 @@ def run(ctx):
     c01.r14_counter(ctx)
     r74_dict_iteration(ctx)
     r75_no_loop_carried_state(ctx)
+    # independence of wall-clock speed: the only place where two threads could both act on the model is the start hand-over
+    from .. import simrules as S
+    S.wakeup_last(ctx, S.SimCtx(prog), 'R7.6')
 
 
 def set_typed_names(prog):
